@@ -99,7 +99,13 @@ PostTable(tr) ==
    (* all-to-all table with the same index holds a graph of the same class                                                   *)
    \cup (IF tr.cls >= 0 /\ (tr.filed # tr.cls \/ (tr.cls < Len(TableOf(tr.n, "all")) /\ KeyOfGraph(tr.n, TableOf(tr.n, "all")[tr.cls + 1][1]) # ClassKey(GG)))
          THEN {"class"} ELSE {})
-   \cup (IF tr.gates # tr.gates2 THEN {"parse"} ELSE {})
+   (* gates2 = an independent parse of the line's TEXT by the documented grammar (vocabulary and indices are judged on it); the circuit the  *)
+   (* library's loader builds from the text (gates) may be normalised differently but must be the same circuit: same signed action on      *)
+   (* |0..0>, same two-qubit cost and depth                                                                                               *)
+   \cup (IF ~( /\ \A i \in 1..Len(tr.gates2) : WellFormed(tr.gates2[i], tr.n) /\ tr.gates2[i][1] \in TableVocab
+              /\ SignedSpan(ApplySeqTab(tr.gates2, ZTab(tr.n))) = SignedSpan(tab)
+              /\ Cost(tr.gates2) = cost /\ Depth2q(tr.gates2) = MaxLvl(lvl) )
+         THEN {"parse"} ELSE {})
    \cup (IF tr.nlines # NumClasses(tr.n) THEN {"count"} ELSE {})
 
 PostApi(tr) ==      \* prep / readout / compress
